@@ -2485,7 +2485,7 @@ func (interp *Interpreter) cfg(root *node, sc *scope, importPath, pkgName string
 			case n.rval.IsValid():
 				n.gen = nop
 				n.findex = notInFrame
-			case n.anc.kind == assignStmt && n.anc.action == aAssign && n.anc.nright == 1 && !isInterface(n.anc.child[childPos(n)-n.anc.nright].typ):
+			case n.anc.kind == assignStmt && n.anc.action == aAssign && n.anc.nright == 1 && directDest(n.anc.child[childPos(n)-n.anc.nright]):
 				dest := n.anc.child[childPos(n)-n.anc.nright]
 				n.typ = dest.typ
 				n.findex = dest.findex
@@ -3212,6 +3212,13 @@ func isFuncField(n *node) bool {
 
 func isMapEntry(n *node) bool {
 	return n.action == aGetIndex && isMap(n.child[0].typ)
+}
+
+// directDest returns true if the result of a unary operation can be stored directly in the
+// location of dest: not for the blank identifier, which has no location nor type of its own yet,
+// and not for an interface, for which the operators have no generator.
+func directDest(dest *node) bool {
+	return !isBlank(dest) && dest.typ != nil && !isInterface(dest.typ)
 }
 
 // isStringElem returns true if n is the element of a string, which can not be assigned.
